@@ -548,6 +548,21 @@ package bus
 //@   ghost_at_return o.propevents := old(o.propevents) + 1
 //@   ghost_at_return o.proplast := id
 
+//@ immutable stubObject.signal
+//@ immutable stubObject.impl
+// Service-side update: the same discipline as a client write — the validator runs exactly once
+// before anything is stored, a refused update stores nothing and emits nothing, an accepted one
+// stores the new value under the property's name and emits exactly one change event for its id.
+//@ func (s *stubObject) UpdateProperty(id uint32, sig string, data []byte) (err error)
+//@   tags C14
+//@   requires s.signal != nil && !s.signal.signalsMutex.lockw && s.signal.signalsMutex.lockr == 0
+//@   requires typeis(s.impl, *objectImpl) ==> unbox(s.impl, *objectImpl) != nil && !unbox(s.impl, *objectImpl).propertiesMutex.lockw && unbox(s.impl, *objectImpl).propertiesMutex.lockr == 0 && unbox(s.impl, *objectImpl).meta.Properties != nil
+//@   modifies everything, s.signal.propevents, s.signal.proplast, s.signal.evattempts, s.signal.evmatch, unbox(s.impl, *objectImpl).validated
+//@   ensures[C14] err == nil ==> typeis(s.impl, *objectImpl) && unbox(s.impl, *objectImpl).validated == old(unbox(s.impl, *objectImpl).validated) + 1 && s.signal.propevents == old(s.signal.propevents) + 1 && s.signal.proplast == id
+//@   ensures[C14] s.signal.propevents == old(s.signal.propevents) || (s.signal.propevents == old(s.signal.propevents) + 1 && unbox(s.impl, *objectImpl).validated == old(unbox(s.impl, *objectImpl).validated) + 1)
+//@   call saveProperty#1: assert[C14] objImpl.validated == old(unbox(s.impl, *objectImpl).validated) + 1 && s.signal.propevents == old(s.signal.propevents) && arg0 == prop.Name
+//@   call UpdateProperty#1: assert[C14] has(objImpl.properties, prop.Name) && arg0 == id
+
 //@ guarded_by (o *objectImpl) o.propertiesMutex: o.properties, o.properties[*]
 //@   monitor o.properties != nil
 //@ func (o *objectImpl) saveProperty(name string, newValue value.Value) (err error)
